@@ -35,6 +35,13 @@ Step(q, o) ==
     [] o.op = "AppendContainer" -> {Out(OkNone, q \o Flat(o.parts))}
     [] o.op = "AppendContainerAsBlock" ->
             {Out(OkNone, q \o Pack(OfNat(Len(Flat(o.parts)))) \o Flat(o.parts))}
+    \* the appended container was partly consumed before (o.n bytes were taken out of it with Get)
+    [] o.op = "AppendUsedContainer" ->
+            LET src == Flat(o.parts) rest == IF o.n <= Len(src) THEN Drop(src, o.n) ELSE src
+            IN {Out(OkNone, q \o rest)}
+    [] o.op = "AppendUsedContainerAsBlock" ->
+            LET src == Flat(o.parts) rest == IF o.n <= Len(src) THEN Drop(src, o.n) ELSE src
+            IN {Out(OkNone, q \o Pack(OfNat(Len(rest))) \o rest)}
     [] o.op = "Replace"         -> {Out(OkNone, o.b)}
     [] o.op = "Reload"          -> {Out(OkNone, q)}      \* UnmarshalJSON(MarshalJSON())
     \* --- non-consuming reads
@@ -83,6 +90,7 @@ Ops(q) ==
     {Op(n, b, 0, <<0>>, <<>>) : n \in {"Append", "Prepend", "AppendAsBlock", "PrependAsBlock", "Replace"}, b \in Slices}
     \cup {Op(n, <<>>, 0, d, <<>>) : n \in {"AppendNumber", "PrependNumber", "AppendInt", "PrependInt"}, d \in Nums}
     \cup {Op(n, <<>>, 0, <<0>>, p) : n \in {"AppendContainer", "AppendContainerAsBlock"}, p \in PartLists}
+    \cup {Op(n, <<>>, k, <<0>>, p) : n \in {"AppendUsedContainer", "AppendUsedContainerAsBlock"}, p \in PartLists, k \in {1, 2, 3}}
     \cup {Op(n, <<>>, 0, <<0>>, <<>>) : n \in {"PrependLength", "Reload", "CompileData", "HoldsData", "GetAll",
                                                "GetNextBlock", "GetNextBlockAsContainer"}}
     \cup {Op(n, <<>>, k, <<0>>, <<>>) : n \in {"Peek", "PeekContainer", "Get", "GetAsContainer", "GetMax"}, k \in Sizes(q)}
@@ -94,7 +102,8 @@ Family == {"write", "number", "container", "plain", "sized", "slice", "varint"}
 OpsOf(f, q) ==
     CASE f = "write"     -> {o \in Ops(q) : o.op \in {"Append", "Prepend", "AppendAsBlock", "PrependAsBlock", "Replace"}}
       [] f = "number"    -> {o \in Ops(q) : o.op \in {"AppendNumber", "PrependNumber", "AppendInt", "PrependInt"}}
-      [] f = "container" -> {o \in Ops(q) : o.op \in {"AppendContainer", "AppendContainerAsBlock"}}
+      [] f = "container" -> {o \in Ops(q) : o.op \in {"AppendContainer", "AppendContainerAsBlock",
+                                                        "AppendUsedContainer", "AppendUsedContainerAsBlock"}}
       [] f = "plain"     -> {o \in Ops(q) : o.op \in {"PrependLength", "Reload", "CompileData", "HoldsData", "GetAll"}}
       [] f = "sized"     -> {o \in Ops(q) : o.op \in {"Peek", "PeekContainer", "Get", "GetAsContainer", "GetMax"}}
       [] f = "slice"     -> {o \in Ops(q) : o.op = "WriteToSlice"}
